@@ -315,8 +315,9 @@ Definition all_units : list unit_ := [US; UM; UH; UD; UW].
 (* string_wdhms_to_duration on a rendered form, with the exact guards:
    a count above i64::MAX: from_str_radix fails, the process exits;
    count * unit above TimeDelta::MAX seconds (or i64 overflow): try_* is None, "not parseable";
-   the sum above TimeDelta::MAX: `TimeDelta + TimeDelta` panics *)
-Definition rel_dur (at_ neg : bool) (items : list (list N * unit_)) : durres :=
+   the sum above TimeDelta::MAX: checked_add gives None, "not parseable"
+   ([sum_panics] = true: the code before the repair added with `+`, which panics) *)
+Definition rel_dur_gen (sum_panics : bool) (at_ neg : bool) (items : list (list N * unit_)) : durres :=
   let vs := map (fun u => eff u items) all_units in
   if negb (forallb (fun v => v <=? I64_MAX) vs) then DurExit
   else
@@ -324,8 +325,9 @@ Definition rel_dur (at_ neg : bool) (items : list (list N * unit_)) : durres :=
     if negb (forallb (fun v => v <=? DUR_MAX_SECS) secs) then DurNone
     else
       let total := fold_left Z.add secs 0 in
-      if negb (total <=? DUR_MAX_SECS) then DurExit
+      if negb (total <=? DUR_MAX_SECS) then (if sum_panics then DurExit else DurNone)
       else DurOk (if neg then - total else total) at_.
+Definition rel_dur := rel_dur_gen false.
 
 Lemma rel_arg_nonempty at_ neg items : rel_arg at_ neg items <> [].
 Proof. unfold rel_arg. destruct at_; discriminate. Qed.
@@ -333,7 +335,7 @@ Proof. unfold rel_arg. destruct at_; discriminate. Qed.
 Theorem wdhms_rendered at_ neg items :
   items <> [] -> Forall item_ne items -> m_wdhms (rel_arg at_ neg items) = rel_dur at_ neg items.
 Proof.
-  intros Hne Hok. unfold m_wdhms, wdhms.
+  intros Hne Hok. unfold m_wdhms, wdhms, wdhms_gen.
   destruct (rel_arg at_ neg items) eqn:A; [exfalso; eapply rel_arg_nonempty; exact A|]. rewrite <- A.
   change dur_anchor_start with true. change dur_anchor_end with true.
   fold (m_search true true). rewrite rel_search_rendered by assumption.
@@ -341,7 +343,7 @@ Proof.
   pose proof (last_cap_caps UH items None) as E2. pose proof (last_cap_caps UD items None) as E3.
   pose proof (last_cap_caps UW items None) as E4. cbn [unit_code] in E0, E1, E2, E3, E4.
   cbn [map combine]. rewrite E0, E1, E2, E3, E4.
-  unfold rel_dur, eff, all_units. cbn [map]. reflexivity.
+  unfold rel_dur, rel_dur_gen, eff, all_units. cbn [map]. reflexivity.
 Qed.
 
 (* ------------------------------------------------------------------ no absolute row reads a relative form *)
@@ -465,7 +467,7 @@ Proof. intros H. apply (digits_ok_item ds US) in H. exact H. Qed.
 
 Lemma wdhms_epoch ds : m_wdhms (epoch_arg ds) = DurNone.
 Proof.
-  unfold m_wdhms, wdhms, epoch_arg. change dur_anchor_start with true.
+  unfold m_wdhms, wdhms, wdhms_gen, epoch_arg. change dur_anchor_start with true.
   cbn [rel_search]. unfold rel_here_anch, rel_match_here.
   cbn [sym_is dur_at dur_plus dur_minus N.eqb Pos.eqb]. fold m_loop.
   rewrite <- (app_nil_r (map Dg ds)) at 1. rewrite rel_loop_digits. reflexivity.
@@ -563,7 +565,7 @@ Lemma rel_dur_small at_ neg items :
   unit_total items <= DUR_BOUND ->
   rel_dur at_ neg items = DurOk (if neg then - unit_total items else unit_total items) at_.
 Proof.
-  intros H. unfold rel_dur. fold (unit_total items).
+  intros H. unfold rel_dur, rel_dur_gen. fold (unit_total items).
   pose proof (eff_nonneg US items). pose proof (eff_nonneg UM items). pose proof (eff_nonneg UH items).
   pose proof (eff_nonneg UD items). pose proof (eff_nonneg UW items).
   unfold unit_total, all_units, DUR_BOUND in *. cbn [map fold_left forallb CliDtSpec.unit_secs] in *.
@@ -624,7 +626,15 @@ Example relative_guards :
   rel_dur false false [([9;2;2;3;3;7;2;0;3;6;8;5;4;7;7;5]%N, US)] = DurOk 9223372036854775 false
   /\ rel_dur false false [([9;2;2;3;3;7;2;0;3;6;8;5;4;7;7;6]%N, US)] = DurNone
   /\ rel_dur false false [([9;2;2;3;3;7;2;0;3;6;8;5;4;7;7;5;8;0;8]%N, US)] = DurExit
-  /\ rel_dur false true [([9;2;2;3;3;7;2;0;3;6;8;5;4;7;7;5]%N, US); ([1]%N, UM)] = DurExit
+  /\ rel_dur false true [([9;2;2;3;3;7;2;0;3;6;8;5;4;7;7;5]%N, US); ([1]%N, UM)] = DurNone
   /\ rel_dur true false [([1;5;2;5;0;2;8;4;4;5;2]%N, UW)] = DurOk (15250284452 * 604800) true
   /\ rel_dur true false [([1;5;2;5;0;2;8;4;4;5;3]%N, UW)] = DurNone.
+Proof. vm_compute. repeat split; reflexivity. Qed.
+
+(* regression lemma for the repaired defect: the code before the repair added the five TimeDelta
+   values with `+`, which panicked (the process aborted) when the sum exceeded TimeDelta::MAX *)
+Lemma sum_overflow_before_fix :
+  wdhms_gen dur_at dur_plus dur_minus dur_units dur_anchor_start dur_anchor_end true (cs "+9223372036854775s1m") = DurExit
+  /\ m_wdhms (cs "+9223372036854775s1m") = DurNone
+  /\ rel_dur_gen true false false [([9;2;2;3;3;7;2;0;3;6;8;5;4;7;7;5]%N, US); ([1]%N, UM)] = DurExit.
 Proof. vm_compute. repeat split; reflexivity. Qed.
